@@ -148,11 +148,12 @@ prop("C03",
 
 prop("C04",
      [st.rule_E1, sem.rule_E2, st.rule_DELEG, cg.rule_E3, ts2.rule_E4r, ts2.rule_R4, A("rule_E5"), A("rule_X2"), sem.rule_N1, st.rule_N4, st.rule_N5, sig.rule_O1, sig.rule_O3],
-     "E1 every get_ptrs is leaf/delegate/container(all members)/cached-sorted-list; E2 each collection's six RawLock ops use one "
-     "list expression with mode purity and the matching ordered_* helper; wrappers delegate op-for-op; E3 no try-style function "
+     "E1 every get_ptrs is leaf/delegate/container(all members)/cached-sorted-list; E2 (data model, helpers inlined) each of the 24 "
+     "collection lock operations touches every leaf exactly once and only in its own mode; wrappers delegate op-for-op; E3 no try-style function "
      "reaches a blocking acquisition (call graph); E4 scoped closure runs exactly once iff acquired and its result is returned; "
      "E5/X2 ordered_try_*: true only after the loop ran to exhaustion, false only after rolling back the acquired prefix; "
-     "N1/N4/N5 'each exactly once': no collection can be built or later be made to list a lock twice without a check.",
+     "N1/N4/N5 'each exactly once': a safe constructor without an OwnedLockable bound returns a collection exactly when all leaf "
+     "addresses are distinct (data model, every address assignment of <= 3 leaves); the fact cannot be invalidated later.",
      "behaviour against concurrent holders (schedules); that the raw try really never waits (lock_api contract).")
 
 prop("C05",
@@ -189,9 +190,10 @@ prop("C15",
 
 prop("C07",
      [sem.rule_N1, st.rule_N4, st.rule_N5, sem.rule_L2, st.rule_E1, sig.rule_O1, sig.rule_O3, W("C07")],
-     "N1/N2 a collection can only be built by an unsafe constructor, under an OwnedLockable bound, or on the no-duplicates edge of "
-     "a check over the collection's own complete (for sorting collections: sorted) lock list; N3 the checks compare thin addresses "
-     "of all adjacent pairs of the whole slice / insert every element into the address set; N4 OwnedLockable is never implemented "
+     "N1 (data model; subsumes the former shape rules N2/N3) a collection can only be built by an unsafe constructor, under an "
+     "OwnedLockable bound, or by a constructor that returns it exactly when the leaf addresses of its data are pairwise distinct - "
+     "decided for every assignment of addresses to up to 3 leaves with the real get_ptrs/sort/check code inlined and sort_by_key, "
+     "windows, zip, HashSet::insert, all/any and thin-pointer comparison interpreted on the model; N4 OwnedLockable is never implemented "
      "for shared references or borrowing collections and is inherited only through OwnedLockable parameters; N5 collections that can "
      "hold borrowed locks give `&mut` access to their data only under an OwnedLockable bound (the checked fact cannot be invalidated); "
      "compile-fail witnesses.",
@@ -200,8 +202,8 @@ prop("C07",
 
 prop("C08",
      [sem.rule_L2, st.rule_O2, st.rule_E1, st.rule_L4, sem.rule_E2, sig.rule_O1, sig.rule_O3],
-     "L2 both sort sites sort the full get_ptrs list ascending by lock address before it is cached, and the blocking ops use exactly "
-     "that cached list; O2 the cached order and the data are never written after construction and no &mut to the data is handed "
+     "L2 (data model) every constructor of a sorting collection stores the complete leaf list sorted ascending by address, and E2 the "
+     "blocking ops acquire in ascending address order for every address order; O2 the cached order and the data are never written after construction and no &mut to the data is handed "
      "out; E1 nested boxed/ref/retrying collections contribute their leaves, the owned collection contributes itself (L4).",
      "the run-time acquisition sequence for concrete inputs.")
 
